@@ -14,7 +14,7 @@ from . import source
 from .runner import run_property, decide, _setup_paths
 
 
-def run_mutant(pid, relpath, old, new, tier="quick", count=1):
+def run_mutant(pid, relpath, old, new, tier="quick", count=1, jobs=None):
     _setup_paths()
     path = os.path.join(source.REPO, relpath)
     with open(path) as f:
@@ -24,7 +24,7 @@ def run_mutant(pid, relpath, old, new, tier="quick", count=1):
     source.set_override(path, text.replace(old, new, count))
     try:
         t0 = time.time()
-        mod, targets, results, opts = run_property(pid, tier, 0, None)
+        mod, targets, results, opts = run_property(pid, tier, 0, jobs)
         bad = []
         errs = []
         for r in results:
@@ -38,20 +38,70 @@ def run_mutant(pid, relpath, old, new, tier="quick", count=1):
         source.set_override(path, None)
 
 
-def self_check(pid, tier="quick"):
-    """Vacuity guard of the thorough tier: every built-in mutant of the real source text (applied in memory) must be refuted by an
-    obligation that holds on the unmutated text.  Returns {"caught": [...], "missed": [...], "skipped": [...]}."""
+def _one(pid, idx, tier, jobs):
+    """One mutant (idx >= 0) or the baseline (idx == -1) in a process of its own; the result comes back as JSON on the last line."""
+    import json
+    import subprocess
+    # the automatic unfolding that is tried before a refutation is believed (contracts.oblige) is switched off for the baseline and the mutants
+    # alike: on a mutated body it retries dozens of refuted obligations and took 20 minutes per mutant of data_received
+    env = dict(os.environ, PYVC_NO_SELFCHECK="1", PYVC_NO_AUTO_UNFOLD="1")
+    p = subprocess.run([sys.executable, "-m", "pyvc.mutants", "--one", pid, str(idx), tier, str(jobs)], capture_output=True, text=True, env=env,
+                       cwd=os.path.dirname(os.path.dirname(os.path.abspath(__file__))))
+    for ln in reversed(p.stdout.strip().splitlines()):
+        if ln.startswith("{"):
+            return json.loads(ln)
+    return {"crash": (p.stderr or p.stdout)[-400:]}
+
+
+def _one_main(pid, idx, tier, jobs):
     import importlib
+    import json
+    _setup_paths()
+    if idx < 0:
+        _, _, base, _ = run_property(pid, tier, 0, jobs)
+        print(json.dumps({"baseline": sorted({o["id"] for r in base for o in r["obligations"] if o["status"] != "discharged"})}))
+        return 0
+    mod = importlib.import_module(f"contracts.{pid.lower()}")
+    name, rel, old, new = mod.MUTANTS[idx]
+    # verification is modular: a change inside a function is first looked for in the targets of the module it is in; only when none of
+    # them refutes it are all targets run (a caller that inlines the body, a ground check)
+    stem = rel[:-3].split("/", 1)[1].replace("/", ".") + "."
+    r = None
+    if not os.environ.get("PYVC_ONLY"):
+        os.environ["PYVC_ONLY"] = stem
+        try:
+            r = run_mutant(pid, rel, old, new, tier=tier, jobs=jobs)
+        except Exception:
+            r = None
+        finally:
+            del os.environ["PYVC_ONLY"]
+    if not r or r.get("error") or not r.get("bad"):
+        r = run_mutant(pid, rel, old, new, tier=tier, jobs=jobs)
+    print(json.dumps(r))
+    return 0
+
+
+def self_check(pid, tier="quick", parallel=8, jobs=2):
+    """Vacuity guard of the thorough tier: every built-in mutant of the real source text (applied in memory) must be refuted by an
+    obligation that holds on the unmutated text.  The baseline and the mutants run in processes of their own, `parallel` at a time with
+    `jobs` workers each.  Returns {"caught": [...], "missed": [...], "skipped": [...]}."""
+    import importlib
+    from concurrent.futures import ThreadPoolExecutor
     _setup_paths()
     mod = importlib.import_module(f"contracts.{pid.lower()}")
     muts = getattr(mod, "MUTANTS", [])
     out = {"caught": [], "missed": [], "skipped": []}
     if not muts:
         return out
-    _, _, base, _ = run_property(pid, tier, 0, None)
-    baseline = {o["id"] for r in base for o in r["obligations"] if o["status"] != "discharged"}
-    for name, rel, old, new in muts:
-        r = run_mutant(pid, rel, old, new, tier=tier)
+    with ThreadPoolExecutor(parallel) as ex:
+        futs = [ex.submit(_one, pid, i, tier, jobs) for i in range(-1, len(muts))]
+        res = [f.result() for f in futs]
+    if "baseline" not in res[0]:
+        raise RuntimeError("self-check baseline did not run: " + str(res[0])[:300])
+    baseline = set(res[0]["baseline"])
+    for (name, rel, old, new), r in zip(muts, res[1:]):
+        if r.get("crash"):
+            raise RuntimeError(f"self-check mutant {name} crashed: {r['crash']}")
         if r.get("error"):
             out["skipped"].append(f"{name}: {r['error']}")          # the text this mutant edits is no longer there
             continue
@@ -62,6 +112,8 @@ def self_check(pid, tier="quick"):
 
 def main():
     import importlib
+    if sys.argv[1] == "--one":
+        return _one_main(sys.argv[2], int(sys.argv[3]), sys.argv[4], int(sys.argv[5]))
     pid = sys.argv[1]
     _setup_paths()
     mod = importlib.import_module(f"contracts.{pid.lower()}")
